@@ -307,7 +307,7 @@ func Check[C any](t *testing.T, name string, n int, gen func(*rapid.T) C, run fu
 			}
 			Eval(1)
 			ran++
-			err = run(c)
+			err = guard(run, c)
 			if err != nil && !IsSkip(err) {
 				if inc, isInc := err.(interface{ Inconclusive() bool }); isInc && inc.Inconclusive() {
 					Inconclusive(name + ": " + err.Error())
@@ -339,7 +339,7 @@ func Check[C any](t *testing.T, name string, n int, gen func(*rapid.T) C, run fu
 		rapid.Check(t, func(rt *rapid.T) {
 			c := gen(rt)
 			Eval(1)
-			err := run(c)
+			err := guard(run, c)
 			if err != nil {
 				if IsSkip(err) {
 					rt.Skip(err.Error())
@@ -374,6 +374,21 @@ func Check[C any](t *testing.T, name string, n int, gen func(*rapid.T) C, run fu
 	}
 }
 
+// guard runs run(c) and turns a panic carrying an *Inc (raised by harness
+// helpers that cannot interpret a run) into that error; other panics pass.
+func guard[C any](run func(c C) error, c C) (err error) {
+	defer func() {
+		if r := recover(); r != nil {
+			if inc, ok := r.(*Inc); ok {
+				err = inc
+				return
+			}
+			panic(r)
+		}
+	}()
+	return run(c)
+}
+
 // Skip marks a discarded case.
 type Skip struct{ Why string }
 
@@ -398,7 +413,7 @@ func Fixed[C any](t *testing.T, name string, each func(do func(c C) bool), run f
 	each(func(c C) bool {
 		cnt++
 		Eval(1)
-		if err := run(c); err != nil && !IsSkip(err) {
+		if err := guard(run, c); err != nil && !IsSkip(err) {
 			if inc, ok := err.(interface{ Inconclusive() bool }); ok && inc.Inconclusive() {
 				Inconclusive(name + ": " + err.Error())
 				return true
